@@ -124,11 +124,9 @@ func (f *MemFile) Chown(uid, gid int) error {
 	nd.Lock()
 	defer nd.Unlock()
 
-	if !nd.checkPermission(avfs.OpenWrite, f.vfs.User()) {
+	if !nd.setOwner(uid, gid, f.vfs.User(), f.vfs.HasFeature(avfs.FeatIdentityMgr)) {
 		return &fs.PathError{Op: op, Path: f.name, Err: f.vfs.err.OpNotPermitted}
 	}
-
-	nd.setOwner(uid, gid)
 
 	return nil
 }
